@@ -20,10 +20,10 @@ import (
 
 const c17jDeviation = 0.05 // collection.expiryDeviation
 
-// c17jMaxBase: above MaxInt64/1.05 the statement's own upper bound 1.05*base is
-// not representable as a Duration (about 278 years); bases are generated up to
-// MaxInt64/1.06.
-const c17jMaxBase = math.MaxInt64 / 106 * 100
+// c17jMaxBase: every positive Duration. Above MaxInt64/1.05 (about 278 years)
+// 1.05*base is not representable: the upper bound is then MaxInt64 itself
+// (still >= 0.95*base, so "between 95% and 105%" holds for the clamped value).
+const c17jMaxBase = math.MaxInt64
 
 type c17jCase struct {
 	Base int64 `json:"base"` // ns
@@ -46,6 +46,9 @@ func c17jBounds(base int64) (lo, hi *big.Int) {
 	hi.Add(hi, big.NewInt(99))
 	hi.Div(hi, big.NewInt(100)) // ceil
 	hi.Add(hi, slack)
+	if max := big.NewInt(math.MaxInt64); hi.Cmp(max) > 0 {
+		hi = max
+	}
 	return
 }
 
@@ -85,8 +88,10 @@ func c17jInterp(t *testing.T, c c17jCase) (v kit.Verdict) {
 		classes["base-10d..100d"] = true
 	case b <= 100*365*24*time.Hour:
 		classes["base-100d..100y"] = true
-	default:
+	case c.Base <= math.MaxInt64/105*100:
 		classes["base>100y"] = true
+	default:
+		classes["base>maxint64/1.05"] = true
 	}
 	for k := range classes {
 		v.Classes = append(v.Classes, k)
@@ -113,6 +118,9 @@ func c17jGen(rt *rapid.T) c17jCase {
 		div := rapid.SampledFrom([]int64{10500, 10000, 9500, 1050, 1000, 950, 105, 100, 95}).Draw(rt, "div")
 		mul := rapid.SampledFrom([]int64{1, 1, 2, 3}).Draw(rt, "mul")
 		c.Base = math.MaxInt64/div*mul + rapid.Int64Range(-1000, 1000).Draw(rt, "delta")
+		if div == 100 && mul == 1 && rapid.Bool().Draw(rt, "top") { // the top of the range: MaxInt64 - 0..1000, MaxInt64/1.05 +- 1000
+			c.Base = rapid.SampledFrom([]int64{math.MaxInt64, math.MaxInt64 / 105 * 100}).Draw(rt, "top-base") - rapid.Int64Range(0, 1000).Draw(rt, "top-delta")
+		}
 	case "grid": // expiries as a cache is configured: multiples of 100 ms from 2 s to 60 days
 		c.Base = int64(100*time.Millisecond) * rapid.Int64Range(20, 60*864000).Draw(rt, "grid")
 	case "days":
